@@ -43,6 +43,7 @@ class Sched:
         self.max_steps = 200000
         self.stall = {}              # worker -> predicate(sched) -> bool: do not schedule while true
         self.pending_lock = {}       # worker -> task whose lock.get() is in progress (fs-level gating)
+        self.pending_dump = {}       # worker -> dump event whose write is in progress
 
     # called by worker threads
     def gate(self, w, what):
@@ -126,8 +127,12 @@ class GStore:
 
     def dump(self, value, name):
         self.sched.gate(self.w, ('dump', self._t(name)))
+        ev = ('dump', self.w, self._t(name), lib.canon(value))
+        self.sched.pending_dump[self.w] = ev
         self.base.dump(value, name)
-        self.sched.record(('dump', self.w, self._t(name), lib.canon(value)))
+        # with file-system gates the event has already been recorded at its linearisation point (the rename onto the final name)
+        if self.sched.pending_dump.pop(self.w, None) is not None:
+            self.sched.record(ev)
 
     def getlock(self, name):
         return GLock(self.base.getlock(name), self.sched, self.w, self._t(name))
@@ -299,6 +304,12 @@ def run_workers(path, make_worker_store, nworkers, rng, flags=None, policy=None,
                     # the O_EXCL creation has just succeeded: this is the linearisation point of a winning get()
                     sched.record(('lock', w, sched.pending_lock.pop(w), True))
                 sched.gate(w, ('fs', prim))
+            elif w is not None and isinstance(path, str) and w in sched.pending_dump and prim in ('mkstemp', 'fsync', 'rename'):
+                # inside a result write: the worker can be descheduled / killed before creating the temp file, with the temp file written, and before the rename
+                sched.gate(w, ('fs', 'dump-' + prim))
+                if prim == 'rename' and (os.sep + 'packs' + os.sep) not in path and w in sched.pending_dump:
+                    # nothing can run between here and the rename itself: this is the linearisation point of the write
+                    sched.record(sched.pending_dump.pop(w))
         undo_fs = fsgate.install(fhook)
 
     def on_executed(t):
